@@ -592,3 +592,24 @@ theorem density_absent (zOf : Nat → Option Nat) (rows : List DensityRow) (z : 
 end density
 
 end PtLoad
+
+/-! ## the atomic weight of an element without an override -/
+namespace PtLoad
+
+/-- every element that has rows has a last row -/
+theorem exists_last_of_z (rows : List IsoRow) (z : Nat) (h : ∃ y ∈ rows, y.z = z) :
+    ∃ pre r' post, rows = pre ++ r' :: post ∧ r'.z = z ∧ ∀ x ∈ post, x.z ≠ z := by
+  induction rows with
+  | nil => obtain ⟨y, hy, _⟩ := h; cases hy
+  | cons x rows ih =>
+    by_cases hlater : ∃ y ∈ rows, y.z = z
+    · obtain ⟨pre, r', post, h1, h2, h3⟩ := ih hlater
+      exact ⟨x :: pre, r', post, by rw [h1]; rfl, h2, h3⟩
+    · obtain ⟨y, hy, hyz⟩ := h
+      have hx : x.z = z := by
+        rcases List.mem_cons.mp hy with rfl | h'
+        · exact hyz
+        · exact absurd ⟨y, h', hyz⟩ hlater
+      exact ⟨[], x, rows, rfl, hx, fun v hv e => hlater ⟨v, hv, e⟩⟩
+
+end PtLoad
